@@ -38,7 +38,14 @@ func (cok *CollationOrderKey[K]) Transform(k K) ([]byte, []byte) {
 	// every call, and hand out a copy because leaves keep the key
 	cok.buf.Reset()
 	colKey := cok.c.Key(cok.buf, b)
-	return b, append(make([]byte, 0, len(colKey)), colKey...)
+
+	// Collation keys are not prefix-free (with options that drop the secondary
+	// and tertiary levels the key of "a" is a prefix of the key of "ab"), which a
+	// radix tree requires. No weight starts with two zero bytes, so a 00 00
+	// terminator makes the keys prefix-free without changing their order.
+	out := make([]byte, 0, len(colKey)+2)
+	out = append(out, colKey...)
+	return b, append(out, 0, 0)
 }
 func (cok *CollationOrderKey[K]) Restore(b []byte) K { return cok.src }
 
